@@ -674,4 +674,90 @@ theorem Args.terms_map (f : α → β) (g : String → String) : ∀ a : Args α
   | .cons e rest => by simp [Args.map, Args.terms, Expr.terms_map f g e, Args.terms_map f g rest]
 end
 
+/-! ## Symbol-list order -/
+
+theorem mem_dedup (x : String) : ∀ (xs seen : List String), x ∈ dedup seen xs ↔ x ∈ seen ∨ x ∈ xs
+  | [], seen => by simp [dedup]
+  | y :: ys, seen => by
+    simp only [dedup]
+    split
+    · rename_i h
+      rw [mem_dedup x ys seen]
+      have hy : y ∈ seen := by simpa using h
+      constructor
+      · rintro (h | h)
+        · exact .inl h
+        · exact .inr (List.mem_cons_of_mem _ h)
+      · rintro (h | h)
+        · exact .inl h
+        · rcases List.mem_cons.1 h with rfl | h
+          · exact .inl hy
+          · exact .inr h
+    · rw [mem_dedup x ys (y :: seen)]
+      simp only [List.mem_cons]
+      constructor
+      · rintro ((rfl | h) | h)
+        · exact .inr (.inl rfl)
+        · exact .inl h
+        · exact .inr (.inr h)
+      · rintro (h | rfl | h)
+        · exact .inl (.inr h)
+        · exact .inl (.inl rfl)
+        · exact .inr h
+
+theorem lhsName_of_parse {ts : List (Tok SAtom)} {eq : Equation SAtom} (h : parseStmt ts = some eq) :
+    lhsName ts = some eq.lhs.name := by
+  obtain ⟨rhs, rfl, _⟩ := parseStmt_some h
+  simp [lhsName, splitStmt, Tok.isChunk]
+
+theorem lhsName_mem_symbolOrder {stmts : List (List (Tok SAtom))} {ts : List (Tok SAtom)} {eq : Equation SAtom}
+    (hts : ts ∈ stmts) (h : parseStmt ts = some eq) : eq.lhs.name ∈ symbolOrder stmts := by
+  obtain ⟨rhs, rfl, _⟩ := parseStmt_some h
+  unfold symbolOrder
+  rw [mem_dedup]
+  right
+  simp only [List.mem_flatten, List.mem_map]
+  exact ⟨_, ⟨_, hts, rfl⟩, by simp [namesOfTok]⟩
+
+/-- The statements of `_evaluate` are the script's statements, each once, … -/
+theorem mem_orderStmts (stmts : List (List (Tok SAtom)))
+    (hwf : ∀ ts ∈ stmts, ∃ eq, parseStmt ts = some eq)
+    (hdistinct : ∀ ts ∈ stmts, ∀ ts' ∈ stmts, lhsName ts = lhsName ts' → ts = ts')
+    (ts : List (Tok SAtom)) : ts ∈ orderStmts stmts ↔ ts ∈ stmts := by
+  unfold orderStmts
+  simp only [List.mem_filterMap]
+  constructor
+  · rintro ⟨n, _, h⟩
+    exact List.mem_of_find?_eq_some h
+  · intro hts
+    obtain ⟨eq, heq⟩ := hwf ts hts
+    refine ⟨eq.lhs.name, lhsName_mem_symbolOrder hts heq, ?_⟩
+    have hl := lhsName_of_parse heq
+    cases hf : stmts.find? (fun ts => lhsName ts == some eq.lhs.name) with
+    | none =>
+      have := List.find?_eq_none.1 hf ts hts
+      simp [hl] at this
+    | some ts' =>
+      have h1 := List.find?_some hf
+      have h2 := List.mem_of_find?_eq_some hf
+      simp only [beq_iff_eq] at h1
+      rw [hdistinct ts' h2 ts hts (h1.trans hl.symm)]
+
+/-- … in symbol-list order: their left-hand-side names form a sublist of the names in order of first appearance. -/
+theorem orderStmts_sorted (stmts : List (List (Tok SAtom))) :
+    List.Sublist ((orderStmts stmts).filterMap lhsName) (symbolOrder stmts) := by
+  unfold orderStmts
+  generalize symbolOrder stmts = names
+  induction names with
+  | nil => simp
+  | cons n ns ih =>
+    simp only [List.filterMap_cons]
+    cases hf : stmts.find? (fun ts => lhsName ts == some n) with
+    | none => simpa using List.Sublist.cons n ih
+    | some ts' =>
+      have h1 := List.find?_some hf
+      simp only [beq_iff_eq] at h1
+      simp only [List.filterMap_cons, h1]
+      exact List.Sublist.cons_cons n ih
+
 end Fsic.M4
